@@ -5,13 +5,13 @@ From Coq Require Import Lia Permutation.
 (* ------------------------------------------------------------------ ties to the current source *)
 (* Any edit of the selection part of main() changes Gen.Select.selection_fingerprint and breaks this lemma. *)
 Lemma selection_code_pinned :
-  selection_fingerprint = "c6e3d01a1a50e5fbb6041a50fa970e02b1b0167d4b1e35a410bfa4cbf83982e1"%string.
+  selection_fingerprint = "2feb637859ee49b9e712a7193efd11d3468e726dce9252d1f10c8fe69b7cc4d7"%string.
 Proof. reflexivity. Qed.
 
 Lemma selection_tables_pinned :
   glob_cwd_pattern = "**/*.[ch]"%string /\ glob_cwd_recursive = true /\
   glob_dir_pattern = "/**/*.[ch]"%string /\ glob_dir_recursive = true /\
-  glob_cwd_last = glob_dir_last /\
+  glob_cwd_last = glob_dir_last /\ glob_cwd_files_only = true /\ glob_dir_files_only = true /\
   accepted_suffixes = [s ".c"; s ".h"] /\
   test_order = ["not path.exists()"; "path.is_file()"; "path.suffix not in ('.c', '.h')"; "path.is_dir()"]%string /\
   exit_missing = 1 /\ exit_bad_suffix = None /\ exit_git_fatal = 0 /\
@@ -80,7 +80,7 @@ Qed.
 
 Lemma cleanb_dir ch : cleanb (Dir ch) =
   forallb (fun xm : str * node =>
-    negb (hidden (fst xm)) && match snd xm with File => true | Dir _ => negb (is_src (fst xm)) end && cleanb (snd xm)) ch.
+    negb (hidden (fst xm)) && cleanb (snd xm)) ch.
 Proof.
   cbn [cleanb].
   induction ch as [|[x m] r IH]; cbn [forallb fst snd]; [reflexivity|]. now rewrite IH.
@@ -320,7 +320,8 @@ Section Loop.
 
   Notation apath := (apath cwd).
   Notation loop := (loop root cwd).
-  Notation kids := (kids).
+  Notation kids := (kids root cwd).
+  Notation not_dir := (not_dir root cwd).
   Notation pat := glob_dir_last.
 
   Lemma apath_child it g : apath (child_item it g) = apath it ++ g.
@@ -329,16 +330,26 @@ Section Loop.
   Lemma name_child it g : g <> [] -> item_name (child_item it g) = last g [].
   Proof. intros H. unfold item_name, child_item. cbn. now apply last_app_ne. Qed.
 
-  Lemma kids_eq it n : kids it n = map (fun gm : path * node => child_item it (fst gm)) (glob_rec pat n).
+  Lemma kids_eq it n :
+    kids it n = filter not_dir (map (fun gm : path * node => child_item it (fst gm)) (glob_rec pat n)).
   Proof. reflexivity. Qed.
+
+  Lemma in_kids it n x : In x (kids it n) -> exists g m, In (g, m) (glob_rec pat n) /\ x = child_item it g /\ not_dir x = true.
+  Proof.
+    rewrite kids_eq, filter_In. intros [H F]. apply in_map_iff in H as ([g m] & <- & Hin). now exists g, m.
+  Qed.
+
+  Lemma cost_filter f q : (cost root cwd (filter f q) <= cost root cwd q)%nat.
+  Proof. unfold cost. induction q as [|a q IH]; [apply le_n|]. cbn [filter]. destruct (f a); simpl; lia. Qed.
 
   Lemma cost_app q1 q2 : cost root cwd (q1 ++ q2) = (cost root cwd q1 + cost root cwd q2)%nat.
   Proof. unfold cost. now rewrite map_app, list_sum_app. Qed.
 
   Lemma kids_cost it n : wfb n = true -> lookup root (apath it) = Some n ->
-    cost root cwd (kids it n) = weight pat n.
+    (cost root cwd (kids it n) <= weight pat n)%nat.
   Proof.
-    intros W L. rewrite kids_eq. unfold cost. rewrite map_map. rewrite (weight_eq pat n).
+    intros W L. rewrite kids_eq. eapply Nat.le_trans; [apply cost_filter|]. apply Nat.eq_le_incl.
+    unfold cost. rewrite map_map. rewrite (weight_eq pat n).
     f_equal. apply map_ext_in. intros [g m] Hin. cbn [fst snd]. f_equal.
     unfold item_weight. rewrite apath_child, lookup_app, L. now rewrite (glob_lookup pat n W g m Hin).
   Qed.
@@ -356,7 +367,8 @@ Section Loop.
       + destruct (suffix_accepted (item_name it)).
         * apply IH. lia.
         * rewrite render_bad. cbn [bind]. change exit_bad_suffix with (@None Z). cbn iota. apply IH. lia.
-      + apply IH. rewrite cost_app, (kids_cost it (Dir ch)); [lia| |exact L]. eapply lookup_wf; eauto.
+      + apply IH. rewrite cost_app.
+        assert (K := kids_cost it (Dir ch) (lookup_wf _ _ _ W L) L). lia.
       + rewrite render_missing. discriminate.
   Qed.
 
@@ -384,7 +396,7 @@ Section Loop.
             -- rewrite render_bad. cbn [bind]. change exit_bad_suffix with (@None Z). cbn iota.
                apply IH; [intros; apply Hq; now right|exact Hf].
           * apply IH; [|exact Hf]. intros x Hx. apply in_app_iff in Hx as [Hx|Hx]; [apply Hq; now right|].
-            rewrite kids_eq in Hx. apply in_map_iff in Hx as ([g m] & <- & Hin). cbn [fst].
+            apply in_kids in Hx as (g & m & Hin & -> & _).
             eapply P_kids; eauto. apply Hq. now left.
           * rewrite render_missing. discriminate.
     Qed.
@@ -440,7 +452,8 @@ Section Loop.
   Proof.
     destruct args as [|a args]; [|intros it H; now left].
     cbn [stack0 eff_args]. destruct (lookup root cwd) as [n|] eqn:L; [|intros it []].
-    intros it H. apply in_map_iff in H as ([g m] & <- & Hin). cbn [fst].
+    intros it H. change (keep_files root cwd glob_cwd_files_only) with (filter not_dir) in H.
+    apply filter_In in H as [H _]. apply in_map_iff in H as ([g m] & <- & Hin). cbn [fst].
     change (glob_items glob_cwd_last glob_cwd_recursive n) with (glob_rec pat n) in Hin.
     assert (Hg : g <> []) by (eapply glob_nonempty; eauto).
     destruct n as [|ch]; [destruct Hin|].
@@ -632,56 +645,88 @@ Section Loop2.
   Qed.
 
   (* ---------------------------------------------------------------- completeness under the guard *)
-  Lemma cleanb_child ch x m : cleanb (Dir ch) = true -> In (x, m) ch ->
-    hidden x = false /\ (is_src x = true -> m = File) /\ cleanb m = true.
+  Lemma cleanb_child ch x m : cleanb (Dir ch) = true -> In (x, m) ch -> hidden x = false /\ cleanb m = true.
   Proof.
     rewrite cleanb_dir, forallb_forall. intros H Hin. specialize (H _ Hin). cbn [fst snd] in H.
-    apply andb_prop in H as [H H3]. apply andb_prop in H as [H1 H2].
-    split; [now destruct (hidden x)|]. split; [|exact H3].
-    intros Hs. destruct m; [reflexivity|]. rewrite Hs in H2. discriminate.
+    apply andb_prop in H as [H1 H2]. split; [now destruct (hidden x)|exact H2].
   Qed.
 
   Lemma glob_clean : forall n, cleanb n = true -> forall g m, In (g, m) (glob_rec pat n) ->
-    m = File /\ hidden (last g []) = false /\ is_src (last g []) = true.
+    hidden (last g []) = false /\ is_src (last g []) = true.
   Proof.
     apply (node_ind2 (fun n => cleanb n = true -> forall g m, In (g, m) (glob_rec pat n) ->
-                               m = File /\ hidden (last g []) = false /\ is_src (last g []) = true)).
+                               hidden (last g []) = false /\ is_src (last g []) = true)).
     - intros _ g m [].
     - intros ch IH C g m. rewrite glob_rec_dir, in_app_iff. intros [H|H].
       + apply in_direct in H as (x & -> & Hin & V). rewrite visible_spec in V. apply andb_prop in V as [V1 V2].
-        destruct (cleanb_child ch x m C Hin) as (Hh & Hm & _). cbn [last]. auto.
+        destruct (cleanb_child ch x m C Hin) as (Hh & _). cbn [last]. auto.
       + apply in_deep in H as (x & k & g' & -> & Hin & _ & H).
-        destruct (cleanb_child ch x k C Hin) as (_ & _ & Ck).
+        destruct (cleanb_child ch x k C Hin) as (_ & Ck).
         assert (Hg : g' <> []) by (eapply glob_nonempty; eauto).
         replace (last (x :: g') []) with (last g' []) by (destruct g'; [contradiction|reflexivity]).
         eapply IH; eauto.
   Qed.
 
-  (* under the guard glob finds exactly the sources below the directory (in another order) *)
-  Lemma glob_perm : forall n, cleanb n = true -> Permutation (map fst (glob_rec pat n)) (src_below n).
+  (* the glob results that survive `not os.path.isdir` *)
+  Definition isfile (gm : path * node) : bool := match snd gm with File => true | Dir _ => false end.
+
+  Lemma filter_pref x l : filter isfile (map (pref x) l) = map (pref x) (filter isfile l).
   Proof.
-    apply (node_ind2 (fun n => cleanb n = true -> Permutation (map fst (glob_rec pat n)) (src_below n))).
+    induction l as [|gm l IH]; [reflexivity|]. cbn [map filter].
+    change (isfile (pref x gm)) with (isfile gm). destruct (isfile gm); cbn [map]; now rewrite IH.
+  Qed.
+
+  (* without dot-names the files glob finds are exactly the sources below the directory (in another order) *)
+  Lemma glob_perm : forall n, cleanb n = true ->
+    Permutation (map fst (filter isfile (glob_rec pat n))) (src_below n).
+  Proof.
+    apply (node_ind2 (fun n => cleanb n = true -> Permutation (map fst (filter isfile (glob_rec pat n))) (src_below n))).
     - intros _. apply perm_nil.
-    - intros ch IH C. rewrite glob_rec_dir, src_below_dir, map_app.
+    - intros ch IH C. rewrite glob_rec_dir, src_below_dir, filter_app, map_app.
       assert (G : forall l, (forall x m, In (x, m) l -> In (x, m) ch) ->
-                Permutation (map fst (direct pat l) ++ map fst (deep pat l)) (src_kids l)).
+                Permutation (map fst (filter isfile (direct pat l)) ++ map fst (filter isfile (deep pat l))) (src_kids l)).
       { induction l as [|[x m] r IHl]; intros Hsub; [apply perm_nil|].
         cbn [direct deep src_kids flat_map fst snd]. fold (direct pat r). fold (deep pat r). fold (src_kids r).
-        rewrite !map_app.
+        rewrite !filter_app, !map_app.
         assert (Hin : In (x, m) ch) by (apply Hsub; now left).
-        destruct (cleanb_child ch x m C Hin) as (Hh & Hm & Cm).
-        assert (IHr : Permutation (map fst (direct pat r) ++ map fst (deep pat r)) (src_kids r))
+        destruct (cleanb_child ch x m C Hin) as (Hh & Cm).
+        assert (IHr : Permutation (map fst (filter isfile (direct pat r)) ++ map fst (filter isfile (deep pat r))) (src_kids r))
           by (apply IHl; intros; apply Hsub; now right).
         rewrite Hh, visible_spec, Hh. cbn [negb andb].
         destruct m as [|ch'].
-        - cbn [glob_rec map app]. destruct (is_src x); cbn [map fst app]; [now apply perm_skip|exact IHr].
-        - assert (Hs : is_src x = false) by (destruct (is_src x); [discriminate (Hm eq_refl)|reflexivity]).
-          rewrite Hs. cbn [map app]. rewrite map_map.
-          replace (map (fun gm : path * node => fst (pref x gm)) (glob_rec pat (Dir ch')))
-            with (map (cons x) (map fst (glob_rec pat (Dir ch')))) by (rewrite map_map; reflexivity).
-          eapply perm_trans; [apply Permutation_app_swap_app|].
-          apply Permutation_app; [|exact IHr]. apply Permutation_map. eapply IH; eauto. }
+        - cbn [glob_rec map filter app]. destruct (is_src x); cbn [map filter isfile snd fst app]; [now apply perm_skip|exact IHr].
+        - destruct (is_src x); cbn [filter isfile snd map app]; rewrite filter_pref, map_map;
+            (replace (map (fun gm : path * node => fst (pref x gm)) (filter isfile (glob_rec pat (Dir ch'))))
+               with (map (cons x) (map fst (filter isfile (glob_rec pat (Dir ch'))))) by (rewrite map_map; reflexivity));
+            (eapply perm_trans; [apply Permutation_app_swap_app|]);
+            (apply Permutation_app; [|exact IHr]); apply Permutation_map; eapply IH; eauto. }
       apply G. auto.
+  Qed.
+
+  Lemma filter_map_swap {A B} (p : B -> bool) (q : A -> bool) (f : A -> B) l :
+    (forall a, In a l -> p (f a) = q a) -> filter p (map f l) = map f (filter q l).
+  Proof.
+    induction l as [|a l IH]; intros H; [reflexivity|]. cbn [map filter].
+    rewrite (H a (or_introl eq_refl)), IH by (intros; apply H; now right). now destruct (q a).
+  Qed.
+
+  (* on a tree whose directories list a name once, `not os.path.isdir(result)` keeps exactly the listed regular files *)
+  Lemma kids_files it n : wfb n = true -> lookup root (apath it) = Some n ->
+    kids root cwd it n = map (fun gm : path * node => child_item it (fst gm)) (filter isfile (glob_rec pat n)).
+  Proof.
+    intros W L. rewrite kids_eq. apply filter_map_swap. intros [g m] Hin. cbn [fst].
+    unfold not_dir, isfile. rewrite apath_child, lookup_app, L, (glob_lookup pat n W g m Hin). now destruct m.
+  Qed.
+
+  Lemma stack0_files n : wfb n = true -> lookup root cwd = Some n ->
+    stack0 root cwd [] = map (fun gm : path * node => rel_item (fst gm)) (filter isfile (glob_rec pat n)).
+  Proof.
+    intros W L. cbn [stack0]. rewrite L.
+    change (keep_files root cwd glob_cwd_files_only) with (filter (not_dir root cwd)).
+    change (glob_items glob_cwd_last glob_cwd_recursive n) with (glob_rec pat n).
+    apply filter_map_swap. intros [g m] Hin. cbn [fst].
+    unfold not_dir, isfile, Select.apath. cbn [rel_item i_abs i_comps snd].
+    rewrite lookup_app, L, (glob_lookup pat n W g m Hin). now destruct m.
   Qed.
 
   Definition is_named (a : item) : bool :=
@@ -689,10 +734,10 @@ Section Loop2.
   Definition is_reject (a : item) : bool :=
     match lookup root (apath a) with Some File => negb (suffix_accepted (item_name a)) | _ => false end.
   Definition dirkids (args : list item) : list item :=
-    flat_map (fun a => match lookup root (apath a) with Some (Dir ch) => kids a (Dir ch) | _ => [] end) args.
+    flat_map (fun a => match lookup root (apath a) with Some (Dir ch) => kids root cwd a (Dir ch) | _ => [] end) args.
 
-  (* the guard of the partial theorem, per argument: below a named directory no name starts with '.' and no
-     directory is named like a source; a named file's own name does not start with '.' *)
+  (* the guard of the partial theorem, per argument: below a named directory no name starts with '.';
+     a named file's own name does not start with '.' *)
   Definition guarded (a : item) : bool :=
     match lookup root (apath a) with
     | Some File => negb (hidden (item_name a))
@@ -700,13 +745,16 @@ Section Loop2.
     | None => true
     end.
 
-  Lemma good_of_glob p n it g m : wfb n = true -> cleanb n = true -> lookup root p = Some n ->
-    In (g, m) (glob_rec pat n) -> apath it = p ++ g -> item_name it = last g [] -> good root cwd it.
+  Lemma good_of_glob p n it g : wfb n = true -> cleanb n = true -> lookup root p = Some n ->
+    In (g, File) (glob_rec pat n) -> apath it = p ++ g -> item_name it = last g [] -> good root cwd it.
   Proof.
-    intros W C L Hin Ep En. destruct (glob_clean n C g m Hin) as (-> & Hh & Hs). split.
+    intros W C L Hin Ep En. destruct (glob_clean n C g File Hin) as (Hh & Hs). split.
     - rewrite Ep, lookup_app, L. exact (glob_lookup pat n W g File Hin).
     - rewrite En. now apply src_accepted.
   Qed.
+
+  Lemma in_filter_isfile g m l : In (g, m) (filter isfile l) -> m = File /\ In (g, m) l.
+  Proof. rewrite filter_In. unfold isfile. cbn [snd]. intros [H F]. destruct m; [now split|discriminate]. Qed.
 
   Lemma loop_guarded : wfb root = true -> forall fuel args pend files msgs,
     (forall p, In p pend -> good root cwd p) ->
@@ -736,24 +784,25 @@ Section Loop2.
              destruct (IH args pend files (bad_suffix_msg a :: msgs) Hp Ha') as [H|H]; [now left|right].
              rewrite H. cbn [rev map app]. now rewrite <- app_assoc.
         * rewrite <- app_assoc.
-          destruct (IH args (pend ++ kids a (Dir ch)) files msgs) as [H|H]; [|exact Ha'|now left|].
+          assert (Wd : wfb (Dir ch) = true) by (eapply lookup_wf; eauto).
+          destruct (IH args (pend ++ kids root cwd a (Dir ch)) files msgs) as [H|H]; [|exact Ha'|now left|].
           { intros p Hin. apply in_app_iff in Hin as [Hin|Hin]; [now apply Hp|].
-            rewrite kids_eq in Hin. apply in_map_iff in Hin as ([g m] & <- & Hin). cbn [fst].
+            rewrite (kids_files a (Dir ch) Wd L) in Hin. apply in_map_iff in Hin as ([g m] & <- & Hin). cbn [fst].
+            apply in_filter_isfile in Hin as [-> Hin].
             assert (Hg : g <> []) by (eapply glob_nonempty; eauto).
             eapply (good_of_glob (apath a) (Dir ch)); eauto.
-            - eapply lookup_wf; eauto.
             - apply apath_child.
             - now apply name_child. }
           right. rewrite H. fold (dirkids args). now rewrite <- !app_assoc.
   Qed.
 
-  Lemma perm_args args :
+  Lemma perm_args args : wfb root = true ->
     (forall a, In a args -> lookup root (apath a) <> None /\ guarded a = true) ->
     Permutation (map apath (filter is_named args ++ dirkids args))
                 (flat_map (fun a => match want_of root cwd a with WFiles ps => ps | _ => [] end) args) /\
     filter is_reject args = filter (fun a => match want_of root cwd a with WReject _ => true | _ => false end) args.
   Proof.
-    induction args as [|a args IH]; intros Ha; [split; [apply perm_nil|reflexivity]|].
+    intros W. induction args as [|a args IH]; intros Ha; [split; [apply perm_nil|reflexivity]|].
     destruct (Ha a (or_introl eq_refl)) as [Le Ga].
     destruct IH as [IH1 IH2]; [intros; apply Ha; now right|].
     cbn [filter dirkids flat_map]. fold (dirkids args). unfold is_named at 1, is_reject at 1, want_of at 1 3.
@@ -768,16 +817,16 @@ Section Loop2.
     - split; [|exact IH2]. rewrite map_app in *. rewrite map_app.
       eapply perm_trans; [apply Permutation_app_swap_app|].
       apply Permutation_app; [|exact IH1].
-      rewrite kids_eq, map_map.
-      replace (map (fun gm : path * node => apath (child_item a (fst gm))) (glob_rec pat (Dir ch)))
-        with (map (app (apath a)) (map fst (glob_rec pat (Dir ch)))).
+      rewrite (kids_files a (Dir ch) (lookup_wf _ _ _ W L) L), map_map.
+      replace (map (fun gm : path * node => apath (child_item a (fst gm))) (filter isfile (glob_rec pat (Dir ch))))
+        with (map (app (apath a)) (map fst (filter isfile (glob_rec pat (Dir ch))))).
       2:{ rewrite map_map. apply map_ext. intros gm. now rewrite apath_child. }
       apply Permutation_map. now apply glob_perm.
   Qed.
 
   (* C15, completeness - PARTIAL: stated for trees in which every directory lists a name once, the current directory is a
-     directory, and - the guard that excludes exactly the two known findings - below every named directory no name starts
-     with '.' and no directory is named *.c / *.h (and a named file's own name does not start with '.').
+     directory, and - the guard that excludes exactly the remaining known finding - below every named directory no name
+     starts with '.' (and a named file's own name does not start with '.').  Directories named *.c / *.h are covered.
      Then, if no argument is missing, the selection ends normally, the checked files are a permutation of the wanted ones
      (so: each once per mention), and the messages are exactly those of the rejected arguments, in order. *)
   Theorem select_complete_partial args :
@@ -797,23 +846,24 @@ Section Loop2.
     unfold select, wanted_files, wanted_rejects.
     destruct args as [|a0 args].
     - (* no argument: the current directory *)
-      cbn [stack0 eff_args] in *. rewrite Lc.
-      change (glob_items glob_cwd_last glob_cwd_recursive (Dir chc)) with (glob_rec pat (Dir chc)).
-      set (q := map (fun gm : path * node => rel_item (fst gm)) (glob_rec pat (Dir chc))).
+      assert (Wc : wfb (Dir chc) = true) by (eapply lookup_wf; eauto).
+      rewrite (stack0_files (Dir chc) Wc Lc). cbn [eff_args] in *.
+      set (q := map (fun gm : path * node => rel_item (fst gm)) (filter isfile (glob_rec pat (Dir chc)))).
       assert (Ld : lookup root (apath dot_item) = Some (Dir chc)) by (unfold Select.apath; cbn; now rewrite app_nil_r).
       assert (Cd : cleanb (Dir chc) = true).
       { specialize (G dot_item (or_introl eq_refl)). unfold guarded in G. now rewrite Ld in G. }
       assert (Hq : forall p, In p q -> good root cwd p).
       { intros p Hin. apply in_map_iff in Hin as ([g m] & <- & Hin). cbn [fst].
-        eapply (good_of_glob cwd (Dir chc)); eauto. eapply lookup_wf; eauto. }
+        apply in_filter_isfile in Hin as [-> Hin].
+        eapply (good_of_glob cwd (Dir chc)); eauto. }
       destruct (loop_guarded W (S (cost root cwd q)) [] q [] [] Hq) as [H|H]; [intros ? []| |].
       + exfalso. revert H. apply (no_hang root cwd W). apply Nat.lt_succ_diag_r.
       + cbn [app] in H. rewrite H. cbn [bind rev filter dirkids flat_map map app]. rewrite app_nil_r.
         exists q, []. split; [reflexivity|]. split.
         * unfold want_of. rewrite Ld. cbn [flat_map]. rewrite app_nil_r.
           unfold q. rewrite map_map.
-          replace (map (fun gm : path * node => apath (rel_item (fst gm))) (glob_rec pat (Dir chc)))
-            with (map (app (apath dot_item)) (map fst (glob_rec pat (Dir chc)))).
+          replace (map (fun gm : path * node => apath (rel_item (fst gm))) (filter isfile (glob_rec pat (Dir chc))))
+            with (map (app (apath dot_item)) (map fst (filter isfile (glob_rec pat (Dir chc))))).
           2:{ rewrite map_map. apply map_ext. intros gm. unfold Select.apath. cbn. now rewrite app_nil_r. }
           apply Permutation_map. now apply glob_perm.
         * unfold want_of. cbn [filter]. now rewrite Ld.
@@ -821,7 +871,7 @@ Section Loop2.
       destruct (loop_guarded W (S (cost root cwd (a0 :: args))) (a0 :: args) [] [] [] (fun p (H : In p []) => match H with end) Ha) as [H|H].
       + exfalso. rewrite app_nil_r in H. revert H. apply (no_hang root cwd W). apply Nat.lt_succ_diag_r.
       + rewrite app_nil_r in H. rewrite H. cbn [bind rev app].
-        destruct (perm_args (a0 :: args) Ha) as [P1 P2].
+        destruct (perm_args (a0 :: args) W Ha) as [P1 P2].
         eexists _, _. split; [reflexivity|]. split; [exact P1|]. now rewrite P2.
   Qed.
 End Loop2.
@@ -879,9 +929,20 @@ Section Loop3.
   Lemma Forall2_rev' {A} (R : A -> A -> Prop) l l' : Forall2 R l l' -> Forall2 R (rev l) (rev l').
   Proof. induction 1; cbn; [constructor|]. apply Forall2_app; [assumption|]. now constructor. Qed.
 
-  Lemma same_kids a b n : same_path a b -> Forall2 same_path (kids a n) (kids b n).
+  Lemma not_dir_same a b : same_path a b -> not_dir root cwd a = not_dir root cwd b.
+  Proof. intros [E1 E2]. unfold not_dir, Select.apath. now rewrite E1, E2. Qed.
+
+  Lemma Forall2_filter_same l l' : Forall2 same_path l l' ->
+    Forall2 same_path (filter (not_dir root cwd) l) (filter (not_dir root cwd) l').
   Proof.
-    intros [E1 E2]. rewrite !kids_eq. induction (glob_rec pat n) as [|gm l IH]; cbn [map]; constructor; [|exact IH].
+    induction 1 as [|a b l l' Hab H IH]; [constructor|]. cbn [filter]. rewrite (not_dir_same a b Hab).
+    destruct (not_dir root cwd b); [now constructor|exact IH].
+  Qed.
+
+  Lemma same_kids a b n : same_path a b -> Forall2 same_path (kids root cwd a n) (kids root cwd b n).
+  Proof.
+    intros [E1 E2]. rewrite !kids_eq. apply Forall2_filter_same.
+    induction (glob_rec pat n) as [|gm l IH]; cbn [map]; constructor; [|exact IH].
     unfold same_path, child_item. cbn. now rewrite E2.
   Qed.
 
@@ -906,10 +967,12 @@ Section Loop3.
   Qed.
 
   Lemma stack0_dot ch : lookup root cwd = Some (Dir ch) ->
-    Forall2 same_path (stack0 root cwd []) (kids dot_item (Dir ch)).
+    Forall2 same_path (stack0 root cwd []) (kids root cwd dot_item (Dir ch)).
   Proof.
     intros L. cbn [stack0]. rewrite L, kids_eq.
+    change (keep_files root cwd glob_cwd_files_only) with (filter (not_dir root cwd)).
     change (glob_items glob_cwd_last glob_cwd_recursive (Dir ch)) with (glob_rec pat (Dir ch)).
+    apply Forall2_filter_same.
     induction (glob_rec pat (Dir ch)) as [|gm l IH]; cbn [map]; constructor; [|exact IH].
     split; reflexivity.
   Qed.
@@ -941,15 +1004,23 @@ End Loop3.
 Definition A_ (x : string) : item := mkitem (s x) false [s x].
 Definition always_kept (_ : item) : Z := 1.
 
-(* C15-dir-named-like-source: `d/lib.c/x.c` with argument d: wanted once, checked twice *)
-Definition tree_lib : node := Dir [(s "d", Dir [(s "lib.c", Dir [(s "x.c", File)])])].
-Theorem dir_named_like_source_refuted :
-  exists root cwd args fs ms p,
-    wfb root = true /\ select root cwd always_kept false args = Ok (Selected fs ms) /\
-    wanted_files root cwd args = [p] /\ map (apath cwd) fs = [p; p].
+(* C15-dir-named-like-source (repaired): `d/lib.c/x.c` with argument d is wanted once and checked once; directories named
+   like sources, nested, are inside the guard of select_complete_partial *)
+Definition tree_lib : node :=
+  Dir [(s "d", Dir [(s "lib.c", Dir [(s "x.c", File); (s "inc.h", Dir [(s "y.h", File)])]); (s "z.c", File)])].
+Theorem dir_named_like_source_once :
+  exists fs ms,
+    wfb tree_lib = true /\ guarded tree_lib [] (A_ "d") = true /\
+    select tree_lib [] always_kept false [A_ "d"] = Ok (Selected fs ms) /\
+    map (apath []) fs = [[s "d"; s "z.c"]; [s "d"; s "lib.c"; s "x.c"]; [s "d"; s "lib.c"; s "inc.h"; s "y.h"]] /\
+    Permutation (map (apath []) fs) (wanted_files tree_lib [] [A_ "d"]) /\
+    select tree_lib [s "d"] always_kept false [] = Ok (Selected (map (fun f => mkitem (skipn 2 (i_raw f)) false (tl (i_comps f))) fs) ms).
 Proof.
-  exists tree_lib, [], [A_ "d"]. eexists _, _, _. split; [reflexivity|]. split; [vm_compute; reflexivity|].
-  split; vm_compute; reflexivity.
+  eexists _, _. split; [reflexivity|]. split; [reflexivity|]. split; [vm_compute; reflexivity|].
+  split; [reflexivity|]. split; [|vm_compute; reflexivity].
+  vm_compute. apply perm_trans with (l' := [[s "d"; s "lib.c"; s "x.c"]; [s "d"; s "z.c"]; [s "d"; s "lib.c"; s "inc.h"; s "y.h"]]).
+  - apply perm_swap.
+  - apply perm_skip. apply perm_swap.
 Qed.
 
 (* C15-dot-names-skipped: `d/.hid/h.c` and `d/.x.c` with argument d: wanted, not checked *)
@@ -1117,7 +1188,8 @@ Section Basename.
         apply basename_join; [exact Hg|]. eapply glob_names_ok; [|exact Hin]. eapply lookup_names_ok; eauto.
       - destruct args as [|a0 args']; [|exact Ha]. cbn [stack0].
         destruct (lookup root cwd) as [n|] eqn:L; [|intros it []].
-        intros it Hin. apply in_map_iff in Hin as ([gg m] & <- & Hin). cbn [fst rel_item i_raw].
+        intros it Hin. change (keep_files root cwd glob_cwd_files_only) with (filter (not_dir root cwd)) in Hin.
+        apply filter_In in Hin as [Hin _]. apply in_map_iff in Hin as ([gg m] & <- & Hin). cbn [fst rel_item i_raw].
         change (glob_items glob_cwd_last glob_cwd_recursive n) with (glob_rec pat n) in Hin.
         assert (Hg : gg <> []) by (eapply glob_nonempty; eauto).
         apply basename_join; [exact Hg|]. eapply glob_names_ok; [|exact Hin]. eapply lookup_names_ok; eauto.
